@@ -20,6 +20,7 @@ func init() {
 		e.RPackageNamesOwnership()
 		e.RRestoreIdent()
 		e.RPureRestore()
+		e.RParenSync()
 	})
 	register("C08", Meta{
 		Explanation: "Static necessary conditions of transparency: updateImports has a path to its final return that writes nothing to the tree (no unconditional sort, re-spacing or re-parenthesising), and no store precedes an error return; decorateSelectorExpr feeds all 11 inner decoration/spacing slots of a qualified identifier, in source order, to mergeDecorations and stores the results on the identifier's Start, X, End, keeping the selector's own Before/After; mergeDecorations agrees, for every (state, slot class) pair, with the restorer's spacing state machine (applySpace/applyDecorations), so the merged lists render with the same line breaks as the original selector; restoreIdent renders exactly the sequence of restore's SelectorExpr case. Does not decide byte equality nor the resolvers' accuracy.",
